@@ -25,7 +25,7 @@ void spawndied();                       /* cut: observed */
 #ifndef CH
 #define CH 0
 #endif
-#define WMAX 32
+#define WMAX (9 * K + 1)
 
 /* ---------------- symbolic inputs */
 unsigned char op[K];                    /* 0: try to hand over a command before this pass of the main loop */
